@@ -1,15 +1,18 @@
 package checks
 
 import (
+	"bytes"
 	"encoding/base64"
 	"encoding/hex"
 	"encoding/json"
 	"fmt"
+	"regexp"
 	"strings"
 	"sync"
 
 	"github.com/elementsproject/peerswap/swap"
 	"verif/mc"
+	"verif/node"
 	"verif/scn"
 	"verif/world"
 )
@@ -160,7 +163,23 @@ func coopDisclosures(x *scn.Exec, id, h string, fromSeq int) []mc.Violation {
 					}
 					start := uint64(r.Data.StartingBlockHeight)
 					windowClosed := start != 0 && (tip >= start+win || tip < start)
+					// ground truth: is a payment call of this incarnation still blocked inside the Lightning
+					// client (it was started and has not returned)?
+					outstanding := 0
+					for _, p := range x.W.Log[:q.Seq] {
+						if p.Node != scn.IDA || p.Inc != q.Inc || p.Hash != h {
+							continue
+						}
+						if p.Kind == "ln.payclaim" && (p.Result == "hold" || p.Result == "join-pending") {
+							outstanding++
+						}
+						if p.Kind == "ln.payclaim.ret" {
+							outstanding--
+						}
+					}
 					switch {
+					case outstanding > 0:
+						cause = "payment_call_still_outstanding"
 					case strings.Contains(le, "could not pay invoice"):
 						cause = "payment_errors"
 					case prev == "ClaimSwap":
@@ -203,6 +222,34 @@ func oracleC06(x *scn.Exec) []mc.Violation {
 			}
 		} else if !claimedOnChain(x, cur) {
 			n0 := len(x.W.Log)
+			// first WITHOUT a restart: services healthy from now on, time passes - "keeps trying ... until it succeeds"
+			if !x.A.Life.Dead() {
+				x.W.Faults = map[string][]int{}
+				for i := 0; i < 2; i++ {
+					x.Apply(mc.Event{Name: "time", Arg: "11m"})
+				}
+				mid := x.SwapOf(x.A)
+				if d := coopDisclosures(x, id, h, n0); len(d) == 0 && !mid.IsFinished() && !claimedOnChain(x, mid) && !x.A.Life.Dead() {
+					attempts := 0
+					for _, o := range x.W.Log {
+						if o.Node == scn.IDA && o.Inc == x.A.Inc && o.Kind == "wallet.spend" && o.Extra == "preimage" {
+							attempts++
+						}
+					}
+					bucket := "1"
+					switch {
+					case attempts == 0:
+						bucket = "0"
+					case attempts > 20:
+						bucket = "more_than_20"
+					case attempts > 1:
+						bucket = "2_to_20"
+					}
+					out = append(out, mc.Violation{Property: "C06",
+						Key:    fmt.Sprintf("paid_but_stopped_claiming_without_restart:state=%s:claim_attempts_in_this_run=%s", stateSuffix(string(mid.Current)), bucket),
+						Detail: fmt.Sprintf("role=%s backend=%s: claim payment succeeded; the wallet has been healthy for 22 min without a restart, the swap rests in %s after %d claim attempt(s) of this process and no claim spends the output", x.Cfg.ARole(), backend(x), mid.Current, attempts)})
+				}
+			}
 			end := drainTaker(x)
 			after := x.SwapOf(x.A)
 			if d := coopDisclosures(x, id, h, n0); len(d) > 0 {
@@ -233,9 +280,45 @@ func drainTaker(x *scn.Exec) string {
 
 // ---------------------------------------------------------------- C13
 
+var c13AnchorRe = regexp.MustCompile(`"opening_block_height":\d+`)
+
+// c13Enabled / c13Apply: "a swap without a stored anchor never pays" needs such a swap: a protocol-7
+// record without anchor can only exist as a persisted record, so the node is stopped, the anchor is
+// removed from its record and it is started again (once per history, after the pubkey has left).
+func c13Enabled(x *scn.Exec) []mc.Event {
+	sm := x.SwapOf(x.A)
+	if sm == nil || sm.IsFinished() || x.Ctx["c13strip"] != nil || !sm.Data.StartingBlockHeightSet {
+		return nil
+	}
+	return []mc.Event{{Name: "strip_anchor", Dev: 1}}
+}
+
+func c13Apply(x *scn.Exec, e mc.Event) bool {
+	if e.Name != "strip_anchor" {
+		return false
+	}
+	x.A.Kill()
+	node.Settle()
+	x.Ctx["c13strip"] = len(x.W.Log)
+	st := x.A.D.Store
+	for id, b := range st.Records {
+		b = c13AnchorRe.ReplaceAll(b, []byte(`"opening_block_height":0`))
+		b = bytes.ReplaceAll(b, []byte(`,"opening_block_height_set":true`), nil)
+		b = bytes.ReplaceAll(b, []byte(`"opening_block_height_set":true,`), nil)
+		st.Records[id] = b
+	}
+	st.Writes++
+	x.RebootA(true)
+	return true
+}
+
 func oracleC13(x *scn.Exec) []mc.Violation {
 	if x.Cfg.Chain != "lbtc" || !x.Cfg.ATaker() {
 		return nil
+	}
+	stripAt, stripped := -1, false
+	if n, ok := x.Ctx["c13strip"].(int); ok {
+		stripAt = n
 	}
 	var out []mc.Violation
 	type anchor struct {
@@ -244,7 +327,12 @@ func oracleC13(x *scn.Exec) []mc.Violation {
 	}
 	var first *anchor
 	revealed := false
-	for _, o := range x.W.Log {
+	for i, o := range x.W.Log {
+		if stripAt >= 0 && i >= stripAt && !stripped {
+			// from here on the durable record has no anchor
+			stripped = true
+			first = nil
+		}
 		if o.Node != scn.IDA {
 			continue
 		}
@@ -268,6 +356,10 @@ func oracleC13(x *scn.Exec) []mc.Violation {
 			if first == nil {
 				if sm.Data.StartingBlockHeightSet {
 					first = &anchor{true, sm.Data.StartingBlockHeight}
+					if stripped && revealed {
+						out = append(out, mc.Violation{Property: "C13", Key: fmt.Sprintf("anchor_first_stored_after_pubkey_sent:role=%s:state=%s", x.Cfg.ARole(), o.State),
+							Detail: fmt.Sprintf("the record had no anchor when the node started; the record written at seq %d carries anchor %d although the pubkey left long ago", o.Seq, sm.Data.StartingBlockHeight)})
+					}
 				}
 			} else if !sm.Data.StartingBlockHeightSet || sm.Data.StartingBlockHeight != first.h {
 				out = append(out, mc.Violation{Property: "C13", Key: fmt.Sprintf("anchor_changed:role=%s:state=%s", x.Cfg.ARole(), o.State),
